@@ -54,7 +54,13 @@ BFAIL = 'implies(not result, scanner.pos == old(scanner.pos)) and implies(result
 fn(H + ':consume_ident', props=P, params={'scanner': 'BackwardScanner'}, returns='bool',
    requires=['bwf(scanner)'], ensures=BACK + [BFAIL], modifies=['scanner.pos'])
 fn(H + ':consume_quoted', props=P, params={'scanner': 'BackwardScanner'}, returns='bool',
-   requires=['bwf(scanner)'], ensures=BACK + [BFAIL], modifies=['scanner.pos'],
+   requires=['bwf(scanner)'],
+   # a quoted value is closed by the quote that opened it: what is consumed starts and ends with the same quote
+   # character (the other kind of quote inside the value does not end it) and is at least two characters long
+   ensures=BACK + [BFAIL,
+                   'implies(result, scanner.pos + 2 <= old(scanner.pos) and is_quote(scanner.text[old(scanner.pos) - 1]) '
+                   '        and scanner.text[scanner.pos] == scanner.text[old(scanner.pos) - 1])'],
+   modifies=['scanner.pos'],
    loops={0: {'anchor': 'while not scanner.sol()',
               'invariant': ['scanner.start <= scanner.pos', 'scanner.pos < start', 'start == old(scanner.pos)'],
               'decreases': 'scanner.pos - scanner.start'}})
